@@ -95,6 +95,8 @@ def generate(rs: int, tier: str, index: int) -> dict:
         step["update"] = ch.chance(0.3)
     elif kind == "copy":
         step["how"] = ch.choice(["copy", "deepcopy", "method"])
+        if len(shape) >= 1 and ch.sub("empty").chance(0.12):
+            step["view"] = "empty"  # an array without elements (what slicing past the end gives) still has a shape
     elif kind == "text":
         fmt = ch.choice(FMTS)
         if fmt == "%d" and kindc != "int":
@@ -139,6 +141,8 @@ def _view(p: Any, view: str) -> Any:
         return p.T
     if view == "slice":
         return p[::-1]
+    if view == "empty":
+        return p[:0]
     return p
 
 
